@@ -38,6 +38,9 @@ def v_min(*args, **kw):
     acc = args[0]
     for a in args[1:]:
         acc = py_min2(acc, a)
+    c = Ctx.cur
+    if c is not None:
+        c.ghost.setdefault("min_calls", []).append((tuple(args), acc))     # lets contracts state cut lemmas on intermediate minima
     return acc
 
 
